@@ -20,7 +20,8 @@ compare = runcheck.compare
 
 
 def gen_cases(tier, seed):
-    return runcheck.gen_cases_for(PID, tier, seed, per_strategy_quick=250, per_strategy_thorough=2500)
+    return runcheck.gen_cases_for(PID, tier, seed, per_strategy_quick=250, per_strategy_thorough=2500,
+                                  builder_quick=60, builder_thorough=600)
 
 
 def eval_case(case):
